@@ -10,7 +10,9 @@ G:  HostCall_Gen "tokmc" (words over the model's alphabet from the model's initi
     creations of free-1 / free / free+1).
 X:  harness/hostcall runs every behaviour on the real AccumulateOmegas functions over one HostCallArgs.
 V:  HostCall_Trace mode c08 on every step: exact sums, CASH / abort change no balance, exact outcome of new / transfer / eject /
-    upgrade / checkpoint."""
+    upgrade / checkpoint.  Plus Invocations_Gen (Only = "c08"): eight accumulate programs (transfers, checkpoints; halt / trap /
+    out-of-gas) run through the real Psi_A and judged by Invocations_Trace: the returned partial state and deferred transfers are
+    the context B.13 selects, and their exact sum does not exceed the start."""
 import concurrent.futures as cf
 import os
 import sys
@@ -36,10 +38,19 @@ def run(ctx):
         else:
             f1 = [ex.submit(hc.gen, ctx, "tokmc", 0, 2, ctx.seed)] if quick else hc.gen_parts(ex, ctx, "tokmc", 2400, 5, 4)
             f2 = hc.gen_parts(ex, ctx, "tokens", 16 if quick else 800, 12 if quick else 20, 1 if quick else 6)
-            f3 = [ex.submit(hc.gen, ctx, "tokthr", 10 if quick else 0, 1, ctx.seed)]
+            f3 = [ex.submit(hc.gen, ctx, "tokthr", 6 if quick else 0, 1, ctx.seed)]
+            g = dict(hc.BUILD)
+            g.update({"Seed": "1", "NRand": "0", "Only": '"c08"'})
+            finv = ex.submit(vf.gen_cases, ctx, "Invocations_Gen", g, timeout=2400, heap="4g")
             casefiles = [f.result() for f in f1 + f2 + f3]
+            invcases = finv.result()
         binp = fb.result()
         lines = hc.run_cases(ctx, binp, casefiles) if casefiles else []
+        invlines = []
+        if not ctx.replay:
+            invtrace = os.path.join(ctx.tmp, "inv-trace.ndjson")
+            vf.run_driver(ctx, binp, "TestInvocations", env={"VF_CASES": invcases, "VF_OUT": invtrace}, timeout=900)
+            invlines = vf.read_lines(invtrace)
         fmc.result()
     if not lines:
         raise vf.Infra("nothing to judge")
@@ -47,6 +58,12 @@ def run(ctx):
         return e["post"]["exit"] == "cont" and [s["bal"] for s in e["post"]["ctx"]["svcs"]] != [s["bal"] for s in e["pre"]["ctx"]["svcs"]]
     hc.summarize(ctx, lines, nontrivial, "one evaluation = one step of a behaviour (real host call, full before/after context); non-trivial = a balance moved")
     hc.judge(ctx, lines, "c08", "tokens not conserved / balance wrapped / wrong movement", 320 if quick else 2500, 4 if quick else 14)
+    # the same property at the level of the invocation: Psi_A / C on assembled programs (transfers, checkpoints, regular and
+    # exceptional ends): returned balances + returned deferred transfers never exceed the start, and equal the view B.13 selects
+    if invlines:
+        ctx.cov["evaluations"] += len(invlines)
+        ctx.cov["distinct_nontrivial"] += len(invlines)
+        vf.validate_trace(ctx, "Invocations_Trace", invlines, constants=dict(hc.BUILD), shard=40, what="accumulation result breaks conservation / B.13", timeout=900, par=2)
     if getattr(ctx, "selftest", False) or not quick:
         def corrupt(e):
             if e["post"]["exit"] == "cont" and hc.val(e["id"]) == 20 and hc.val(e["post"]["regs"][7]) == 0:
